@@ -396,6 +396,11 @@ class _DataCompiler:
         # We process each of the files that were listed in top.yaml.
         if data_files:
             data_list = self._process_data_files(["top file"], data_files)
+        else:
+            data_list = []
+        # The files listed in top.yaml might all be empty, so the data list can
+        # be empty even if the list of files is not.
+        if data_list:
             data_items, data_versions = zip(*data_list)
         else:
             data_items = tuple()
